@@ -5,6 +5,7 @@ go 1.23
 require (
 	github.com/philpearl/plenc v0.0.0
 	github.com/unravelin/null v2.1.2+incompatible
+	google.golang.org/protobuf v1.26.0
 )
 
 replace github.com/philpearl/plenc => /repo
